@@ -1945,7 +1945,7 @@ func c03ExtentKnown(p *Program, fn *ssa.Function, at ssa.Instruction) (bool, str
 			return false
 		}
 		if c.Call.IsInvoke() {
-			return c.Call.Method.Name() == "Size" && IsNamed(c.Call.Value.Type(), "io/fs", "FileInfo")
+			return c.Call.Method.Name() == "Size" && IsNamed(types.Unalias(c.Call.Value.Type()), "io/fs", "FileInfo") // os.FileInfo is an alias
 		}
 		f := c.Call.StaticCallee()
 		if funcIs(f, "os", "File", "Seek") && len(c.Call.Args) == 3 {
